@@ -43,7 +43,23 @@ def make_types():
     return ns
 
 
+class FalsyHandler:
+    """A perfectly good handler whose truth value is False (an empty call recorder, a handler object with __len__)."""
+
+    def __init__(self, tag):
+        self.tag = tag
+
+    def __call__(self, request):
+        return self.tag
+
+    def __len__(self):
+        return 0
+
+
 def tagger(tag):
+    if tag == "h3":
+        return FalsyHandler(tag)
+
     def handler(request):
         if tag == "kerr":
             # a handler may fail like any other code: its exception belongs to the caller, the request is not
@@ -418,6 +434,8 @@ def succession(ctx, r, case):
                 ctx.count("succession_threads_without_runtime")
             if mode.startswith("plain") and n_rereg:
                 ctx.nontrivial(spec_hash(["succession", script]))
+    except Exception as e:  # noqa: BLE001  (the harness only derives / enters runtimes with valid handlers)
+        ctx.violation("thread-succession", f"deriving or entering a runtime with a valid handler raised {type(e).__name__}: {e}", W)
     finally:
         with rt.lock:
             for t in threads:
